@@ -13,14 +13,19 @@ SPEC = dict(
          "problems for calcGeodesicAnalytical; implicit shooting on sphere, cylinder, ellipsoid and torus from random "
          "surface points and directions (lengths 0.2..2 x size); two-point orthogonal method vs analytic; mode "
          "'degenerate': two knots, zero length, full turns, axial / circumferential helices, nearly antipodal points, "
-         "ellipsoid equator / meridian, torus inner / outer equator, a batch of 60 legacy-interface shots; "
+         "ellipsoid equator / meridian, torus inner / outer equator, a batch of 60 legacy-interface shots, one sphere and one "
+         "cylinder geodesic with 100..1000 knots; "
          "distinct = distinct input records",
-    partial="great circles and helices are modelled and proved (on surface, unit tangent orthogonal to the normal, "
-            "zero geodesic curvature, arc-length parametrisation, Jacobi scalars); the implicit integrator "
-            "(GeodesicIntegrator, ParticleConSurfaceSystem) is not modelled: its geodesics on all four surfaces are "
-            "decided by implementation-side predicates (surface / tangency residuals at every knot, agreement with an "
-            "independent fine-step RK4 integration of the geodesic equation, with the analytic method, and between "
-            "interfaces); continueGeodesic, plane-terminated shooting and the split-geodesic solver are not exercised",
+    partial="(i) PROVED about the executed model: the analytic sphere / cylinder shooters as coded (frame accumulated by "
+            "R = dR*R per knot) equal the closed-form great circle / helix at the trig pair of k*dAngle, hence every knot is "
+            "on the surface with a unit tangent orthogonal to the normal; closed form: zero geodesic curvature, unit speed, "
+            "Jacobi scalars; start frame from SqrtSpec (exact arithmetic: floating-point drift of the never re-orthogonalised "
+            "product is only observed, 100-1000 knots once per run). (ii) PREDICATE ONLY: calcGeodesicAnalytical (left/right "
+            "arc choice and atan2 wrap have no theorem; tie 1e-9 plus frames-on-surface / ends-at-P-and-Q / shoot-arrives "
+            "predicates), the implicit integrator (GeodesicIntegrator, ParticleConSurfaceSystem) on all four surfaces "
+            "(surface / tangency residuals at every knot, independent fine-step RK4 of the geodesic equation, analytic vs "
+            "implicit, orthogonal two-point method), knot-array bookkeeping of the legacy Geodesic object. (iii) NOT "
+            "COVERED: continueGeodesic, shootGeodesicInDirectionUntilPlaneHit, the split calcGeodesic, Geodesic::calcLengthDot",
     assumptions=["libm sqrt / sin / cos / atan2 are trusted (trig pairs with c^2+s^2=1 in the theorems)",
                  "jet lift of a trig pair (c' = -s phi', s' = c phi') is a definition (DESIGN.md section 3 item 6)"],
 )
